@@ -75,6 +75,10 @@ func (e *bcEngine) Gen(rng *rand.Rand, tier string, n int, emit func(string)) {
 	emit("conn ack:0:0 ping pg pub:1:1 disc pa:1")
 	emit("pub:1:1 conn wf:1 ack:0:0 pub:1:2 wf:0 pub:1:3 pa:3")
 	emit("conn ack:0:0 pub:1:7 pub:1:7 pa:7 pa:7")
+	emit("conn ack:0:0 ping pg pg pg eof")
+	emit("conn ack:0:0 ping pg pg pg pub:1:3 bad")
+	emit("conn ack:0:0 pub:1:5 disc pa:5")
+	emit("conn ack:0:0 sub:1:7 sa:7:0001")
 	emit("wf:1 conn lclose")
 	emit("wf:1 conn eof")
 	emit("wf:1 conn wf:0 pub:1:1 lclose")
@@ -551,6 +555,12 @@ func (e *bcEngine) Exec(f []string) Result {
 					}
 				}
 			}
+		}
+	}
+	// Disconnect never waits for anything: it returns within its own event, also while other calls are blocked
+	for k, cl := range calls {
+		if cl.kind == "disc" && (!cl.done || cl.retEv > cl.startEv) {
+			props = append(props, viol("C11", "disconnect-blocked", "Disconnect (call %d) did not return at once", k))
 		}
 	}
 	if ended && dn == 0 {
